@@ -53,6 +53,7 @@ type Exec struct {
 	cellN     int
 	spec      int // >0 while speculatively executing both arms of a diamond
 	transcr   map[string]*big.Int
+	il        *ilState
 }
 
 func (e *Exec) posStr() string {
@@ -151,7 +152,7 @@ func (e *Exec) initAllowed(p *ssa.Package) bool {
 		return true
 	}
 	path := p.Pkg.Path()
-	if path == "math/big" || path == "crypto/rsa" {
+	if path == "math/big" || path == "crypto/rsa" || path == "crypto/elliptic" {
 		return true
 	}
 	for _, d := range initDeny {
@@ -744,12 +745,14 @@ func (e *Exec) store(addr Value, v Value) {
 	p := e.nonNil(addr)
 	if len(p.alts) == 1 {
 		e.storeCell(p.alts[0].cell, v)
+		e.ilStorePoint()
 		return
 	}
 	for _, a := range p.alts {
 		old := e.loadCell(a.cell)
 		e.storeCell(a.cell, e.iteSafe(a.cond, v, old))
 	}
+	e.ilStorePoint()
 }
 
 // subArray returns a cell viewing n elements of arr starting at off as an array cell.
